@@ -5,6 +5,7 @@ import (
 	"encoding/binary"
 	"fmt"
 	"hash"
+	"os"
 	"sort"
 
 	hg "github.com/mosaicnetworks/babble/src/hashgraph"
@@ -35,7 +36,7 @@ type DagRecord struct {
 	order   []*DagEvent
 	byCI    map[string]map[int]string // creator -> index -> hash
 	forks   []string
-	harvest map[int]map[uint32]int // node idx -> creator id -> harvested up to index
+	harvest map[int]map[uint32]int    // node idx -> creator id -> harvested up to index
 	anc     map[string]map[string]int // lazily computed: event -> creator -> highest ancestor index
 }
 
@@ -120,6 +121,16 @@ func (c *Cluster) harvestNode(n *SimNode) {
 			isNew := d.events[h] == nil
 			de := d.add(ev, c.stepNo, n.idx)
 			if isNew {
+				if debugTrace {
+					cr, sp, op := c.byPub[de.Creator], c.dag.events[de.SelfP], c.dag.events[de.OtherP]
+					d := func(e *DagEvent) string {
+						if e == nil {
+							return "-"
+						}
+						return fmt.Sprintf("n%d#%d", c.byPub[e.Creator].idx, e.Index)
+					}
+					fmt.Fprintf(os.Stderr, "step %d: new event n%d#%d sp=%s op=%s txs=%d itxs=%d sigs=%d (first seen at n%d)\n", c.stepNo, cr.idx, de.Index, d(sp), d(op), len(de.Body.Transactions), len(de.Body.InternalTransactions), len(de.Body.BlockSignatures), n.idx)
+				}
 				c.stats.EventsCreated++
 				if owner := c.byPub[de.Creator]; owner != nil {
 					owner.createdCount++
@@ -301,3 +312,5 @@ func (c *Cluster) traceStep() {
 		t.per = append(t.per, t.sum())
 	}
 }
+
+var debugTrace = os.Getenv("SIM_TRACE") != ""
